@@ -88,13 +88,16 @@ def lhsColumns (n : Nat) : List α → List α → List (List Nat) → List (Lis
   | [], [], [], [] => .ok []
   | _, _, _, _ => .error .drawsShape
 
+/-- `if pmax.shape[0] == 1: pmax = np.repeat(pmax, nparams)` -/
+def broadcast {β : Type} (nparams : Nat) : List β → List β
+  | [p] => List.replicate nparams p
+  | pmax => pmax
+
 /-- `lhs(nsamples, pmin, pmax)`: the result is returned column by column (one list per parameter) -/
 def lhs (n : Nat) (pmin pmax : List α) (perms : List (List Nat)) (rs : List (List α)) :
     Except Err (List (List α)) :=
   let nparams := pmin.length
-  let pmax := match pmax with
-    | [p] => List.replicate nparams p
-    | _ => pmax
+  let pmax := broadcast nparams pmax
   if pmax.length ≠ nparams then .error .pmaxLength
   else if (List.zipWith (fun a b => decide (b - a ≤ 0)) pmin pmax).any id then .error .pmaxLePmin
   else if n = 0 ∧ nparams ≠ 0 then .error .zeroSamples
@@ -261,15 +264,23 @@ section numeric2
 variable {α : Type} [Add α] [Sub α] [Mul α] [Div α] [Neg α] [LT α] [DecidableLT α] [LE α] [DecidableLE α]
   [OfNat α 0] [OfNat α 1] [OfNat α 2] [NatCast α] [FloorNat α]
 
+/-- `groupby(by).apply(boxplot_stats, bhc, whc)`: the statistics of every bucket, in key order -/
+def statsOfGroups (bcov wcov : α) : List (Int × List (Option α)) → Except Err (List (Int × Nat × Option (BoxVals α)))
+  | [] => .ok []
+  | g :: gs =>
+    match boxStats g.2 bcov wcov, statsOfGroups bcov wcov gs with
+    | .ok st, .ok rest => .ok ((g.1, st.1, st.2) :: rest)
+    | .error e, _ => .error e
+    | _, .error e => .error e
+
 /-- `Boxplot(data, by=cats, box_coverage, whiskers_coverage).stats`: one column per category -/
 def boxStatsBy (cats : List Int) (data : List (Option α)) (bcov wcov : α) :
-    Except Err (List (Int × Nat × Option (BoxVals α))) := do
+    Except Err (List (Int × Nat × Option (BoxVals α))) :=
   let groups := groupBy cats data
   if groups.length = 1 then .error .oneCategory else
-  boxplotCheck bcov wcov
-  groups.mapM fun g => do
-    let st ← boxStats g.2 bcov wcov
-    pure (g.1, st.1, st.2)
+  match boxplotCheck bcov wcov with
+  | .error e => .error e
+  | .ok _ => statsOfGroups bcov wcov groups
 
 /-! ### violin -/
 
